@@ -94,6 +94,13 @@ func Gen(r *lib.Rand, n int, base int, o Options) []*Op {
 					inner["nullable"] = true // go-openapi extension: null is accepted on top of the declared types
 				}
 			}
+			stress := false
+			if r.P(0.12) {
+				// composition stress: 2-5 small alternatives over a scalar, so that every order of failing and
+				// validating alternatives (fail-valid-valid, valid-fail, none, all ...) occurs under each keyword
+				inner = compositionStress(r)
+				stress = true
+			}
 			var inst any
 			switch r.Intn(10) {
 			case 0:
@@ -103,6 +110,9 @@ func Gen(r *lib.Rand, n int, base int, o Options) []*Op {
 				inst = g.FreeValue(2)
 			default:
 				inst = g.Instance(inner, inner, 0, 0.3)
+			}
+			if stress && r.P(0.85) {
+				inst = []any{gen.I(r.Range(0, 7)), "s", gen.N("2.5"), true}[r.Weighted(6, 1, 1, 1)]
 			}
 			doc := map[string]any{"type": "object", "properties": map[string]any{tag: inner}}
 			if defs != nil {
@@ -361,4 +371,54 @@ func SpecDocs(r *lib.Rand, n int) [][]byte {
 		out = append(out, gen.JSON(tree))
 	}
 	return out
+}
+
+// compositionStress builds {keyword: [alternatives...]} (sometimes two keywords, sometimes nested once) from a pool of
+// one-constraint alternatives which an integer 0..7 satisfies or not.
+func compositionStress(r *lib.Rand) map[string]any {
+	alt := func() any {
+		switch r.Intn(9) {
+		case 0:
+			return map[string]any{"type": "string"}
+		case 1:
+			return map[string]any{"type": "integer"}
+		case 2:
+			return map[string]any{"minimum": gen.I(r.Range(1, 5))}
+		case 3:
+			return map[string]any{"maximum": gen.I(r.Range(1, 5))}
+		case 4:
+			return map[string]any{"multipleOf": gen.I(r.Range(2, 3))}
+		case 5:
+			return map[string]any{"enum": []any{gen.I(r.Range(0, 7)), gen.I(r.Range(0, 7))}}
+		case 6:
+			return map[string]any{}
+		case 7:
+			return map[string]any{"not": map[string]any{"minimum": gen.I(r.Range(1, 6))}}
+		default:
+			return map[string]any{"type": "number", "minimum": gen.I(r.Range(0, 4)), "maximum": gen.I(r.Range(3, 7))}
+		}
+	}
+	list := func() []any {
+		n := r.Range(2, 5)
+		out := make([]any, n)
+		for i := range out {
+			out[i] = alt()
+		}
+		return out
+	}
+	kws := []string{"oneOf", "anyOf", "allOf"}
+	s := map[string]any{kws[r.Intn(3)]: list()}
+	if r.P(0.3) {
+		s[kws[r.Intn(3)]] = list()
+	}
+	if r.P(0.25) {
+		inner := map[string]any{kws[r.Intn(3)]: list()}
+		l := list()
+		l[r.Intn(len(l))] = inner
+		s[kws[r.Intn(3)]] = l
+	}
+	if r.P(0.15) {
+		s["not"] = map[string]any{kws[r.Intn(3)]: list()}
+	}
+	return s
 }
